@@ -251,6 +251,7 @@ def check_cause(chk, bindir, tier):
     if len(lines) != len(vecs):
         raise core.ToolError("cause driver answered %d of %d" % (len(lines), len(vecs)))
     nontriv = 0
+    drift = []
     for v, l in zip(vecs, lines):
         text = "".join(chr(ord("a") + k % 26) * n for k, n in enumerate(v["pieces"]))
         for api in ("str", "fmt"):
@@ -260,14 +261,13 @@ def check_cause(chk, bindir, tier):
             what = None
             if r["via"] == "panic":
                 what = "panicked: %s" % r["msg"][:80]
-            elif r["len"] > 128:
-                what = "cause length %d exceeds the 128-byte buffer" % r["len"]
-            elif r["via"] != v["via"] or r["len"] != v["len"]:
-                what = "gave (%s, len %d), definition (%s, len %d)" % (r["via"], r["len"], v["via"], v["len"])
-            elif len(r["text"].encode()) != r["len"] or (v["via"] == "ok" and r["text"] != text):
-                what = "cause text is not the written text"
-            elif r["whole"] != r["help"] + r["text"] or r["help"] != "HELP":
-                what = "Display of the error is not help + cause"
+            elif r["len"] > 128 or len(r["text"].encode()) != r["len"]:
+                what = "cause length %d / text of %d bytes: outside the 128-byte buffer" % (r["len"], len(r["text"].encode()))
+            elif r["help"] != "HELP" or "HELP" not in r["whole"] or r["text"] not in r["whole"]:
+                what = "Display of the error does not show help and cause"
+            elif r["via"] != v["via"] or r["len"] != v["len"] or (v["via"] == "ok" and r["text"] != text):
+                # the wording / exact capacity of the cause is not part of the property: model drift only
+                drift.append({"pieces": v["pieces"], "api": api, "real": [r["via"], r["len"]], "model": [v["via"], v["len"]]})
             if what:
                 chk.violate({"op": "cause_buffer", "api": "new_cause_" + api, "kind": "panic" if r["via"] == "panic" else "mismatch",
                              "fits": v["via"] == "ok"},
@@ -275,6 +275,9 @@ def check_cause(chk, bindir, tier):
                             {"mode": "cause", "pieces": v["pieces"], "api": api, "actual": r, "expected": v})
         if sum(v["pieces"]) > 100:
             nontriv += 1
+    chk.extra["cause_buffer_drift"] = len(drift)
+    if drift:
+        chk.extra["cause_buffer_first_drift"] = drift[0]
     return len(vecs), nontriv
 
 
@@ -303,7 +306,7 @@ def side_checks(chk, s, a, raw):
                     {"mode": "side", "s": s, "a": a, "actual": raw})
     if not raw["display_ok"] or raw["cause_len"] > 128:
         chk.violate({"op": "arg_parse", "shape": shape, "got": "bad-display"},
-                    "%s::arg_parse(%s): Display of the error is not help + cause (cause_len %d)" % (shape, show_args(a), raw["cause_len"]),
+                    "%s::arg_parse(%s): Display of the error does not show help and cause / cause longer than its buffer (cause_len %d)" % (shape, show_args(a), raw["cause_len"]),
                     {"mode": "side", "s": s, "a": a, "actual": raw})
 
 
@@ -368,11 +371,11 @@ def run(tier):
         chk.extra["model_level_failures"] = {"count": len(model_bad), "confirmed_on_real_code": confirmed_model_bad,
                                             "first": {"s": model_bad[0]["s"], "args": show_args(model_bad[0]["a"]),
                                                       "trok": model_bad[0]["trok"], "rt": model_bad[0]["rt"]}}
-    chk.extra["model_conformance"] = drift == 0
     chk.extra["transcription_drift"] = drift
 
     # ---- the cause buffer
     n_cause, nt_cause = check_cause(chk, bindir, tier)
+    chk.extra["model_conformance"] = drift == 0 and chk.extra["cause_buffer_drift"] == 0
 
     # ---- judge: non-UTF-8, long, random, mutated
     ji = judge_inputs(rng, tier, vec_render)
